@@ -213,6 +213,17 @@ Section PencilModel.
         end
     end.
 
+  (* compute_mean + project on lists (what the three methods do after the solver).  sites: 0 = feature
+     matrix shape, 5 = projection matrix shape, 2 = N = 0 in `mean.array() /= (end - begin)` *)
+  Definition run_project (N D d : nat) (Xl Pl : list (list F)) : result (list F * list (list F)) :=
+    if negb (wf_matb D N Xl) then OOB 0 (length Xl) D else
+    if negb (wf_matb D d Pl) then OOB 5 (length Pl) D else
+    if Nat.eqb N 0 then OOB 2 0 0 else
+    let X := mof Xl in
+    let ml := vtab D (compute_mean X N) in            (* memoise the mean *)
+    let m := vof ml in
+    Ok (ml, mtab N d (project D (mof Pl) m X)).
+
   (* what the solver sees of a pair of full tables *)
   Definition seen_tables (D : nat) (lhs rhs : list (list F)) : list (list F) * list (list F) :=
     (mtab D D (read_lower (mof lhs)), mtab D D (read_lower (mof rhs))).
